@@ -88,6 +88,9 @@ def extra_kinds():
         "mkcalendar_exists": ("MKCALENDAR", "/u/cal/", None, {}, L, 409),
         "mkcalendar_no_parent": ("MKCALENDAR", "/u/nope/deep/", None, {}, L, 409),
         "proppatch_bad_xml": ("PROPPATCH", "/u/cal/", "<notxml", {}, L, 400),
+        # a PROPPATCH that names no property still rewrites the property file: it is a write request like any other
+        "proppatch_no_instruction": ("PROPPATCH", "/u/cal/", '<?xml version="1.0"?><D:propertyupdate xmlns:D="DAV:"/>', {}, L, 207),
+        "proppatch_no_body": ("PROPPATCH", "/u/cal/", None, {}, L, 207),
         "proppatch_missing": ("PROPPATCH", "/u/nope/", scenarios.PROPPATCH, {}, L, 404),
         "post": ("POST", "/u/cal/", "x", {}, L, 405),
         "anonymous_get": ("GET", "/u/cal/a.ics", None, {}, None, 200),
